@@ -193,7 +193,11 @@ class GroupByChunk(Chunk, GroupByBase):
         args = [
             meta_nonempty(op._meta) if isinstance(op, Expr) else op for op in self._args
         ]
-        return make_meta(self.operation(*args, **self._kwargs))
+        meta = self.operation(*args, **self._kwargs)
+        if isinstance(meta, tuple):
+            # e.g. cov: the chunk is a tuple of intermediate frames
+            return meta
+        return make_meta(meta)
 
 
 class GroupByApplyConcatApply(ApplyConcatApply, GroupByBase):
